@@ -14,7 +14,7 @@ import (
 	"os"
 	"runtime"
 	"slices"
-		_ "unsafe"
+	_ "unsafe"
 
 	"golang.org/x/tools/go/ssa"
 )
@@ -686,7 +686,6 @@ func doRecover(caller *frame) value {
 	}
 	return iface{}
 }
-
 
 // returnOperand evaluates one operand of a multi-value return. go/ssa evaluates the
 // operands of "return x, f()" strictly left to right, i.e. it loads the variable x before
